@@ -110,6 +110,44 @@ class FormatExact:
             yield dict(n=n)
 
 
+@proof("C20", "format-exact.after-daemon-conversions")
+class FormatExactAfterDaemonConversions:
+    """BOUNDED stand-in: the formatter stays exact in a process that has already used the daemon's OTHER conversion code (the real
+    ExchangeRateManager pricing a fiat fee, the claim Fee accessors): state those leave behind (e.g. the decimal context) must not
+    change what satoshis_to_coins / dewies_to_lbc return"""
+    bounded_only = True
+    inputs = dict(n=TInt())
+    note = "the integer grid of format-exact (both signs, amounts above 10**16 included) after one fiat-to-LBC fee conversion"
+
+    def run(n):
+        import time
+        from decimal import Decimal
+        from lbry.extras.daemon.exchange_rate_manager import ExchangeRateManager, ExchangeRate, BittrexUSDFeed
+        manager = ExchangeRateManager([BittrexUSDFeed])
+        feed = manager.market_feeds[0]
+        feed.last_check = time.time()
+        feed.rate = ExchangeRate(feed.market, 1 / 0.0173, time.time())
+        manager.to_dewies('USD', Decimal('1.50'))
+        s = dewies_to_lbc(n)
+        neg = s.startswith('-')
+        body = s[1:] if neg else s
+        whole, _, frac = body.partition('.')
+        return s, neg, whole, frac, lbc_to_dewies(s) if n >= 0 else None
+
+    def ensures_exact_value(n, result):
+        s, neg, whole, frac, back = result
+        v = int(whole) * 10 ** 8 + int(frac) * pow10(8 - len(frac))
+        return (0 - v if neg else v) == n and neg == (n < 0) and (back is None or back == n)
+
+    def samples():
+        for n in boundary_ints():
+            if -MAX <= n <= MAX:
+                yield dict(n=n)
+        for n in (10 ** 16 + 1, 10 ** 17 - 1, 123456789012345678, 2 * 10 ** 17 + 7):
+            yield dict(n=n)
+            yield dict(n=-n)
+
+
 @proof("C20", "parse-accepts-exact")
 class ParseAccepts:
     """every string of the grammar d{1,10}.d{1,8} is accepted with its exact value"""
